@@ -254,7 +254,7 @@ NoKills == \A u \in Uploaders : alive[u]
 (* C07 *)
 (* crash-free quiescence: every week has exactly one complete local report over exactly its files, and they are gone *)
 OneLocalReport == (Quiet /\ \A u \in Uploaders : runs[u] >= 1) =>
-                    \A w \in Weeks : (FilesOf(w) \ (LateFiles \ arrived) # {}) =>
+                    \A w \in Weeks : (FilesOf(w) \ LateFiles # {}) =>
                                      /\ localr[w].st = "file" /\ localr[w].complete
                                      /\ (FilesOf(w) \ LateFiles) \subseteq localr[w].files /\ localr[w].files \subseteq FilesOf(w)
                                      /\ (FilesOf(w) \ LateFiles) \cap count = {}
